@@ -512,6 +512,10 @@ def r7_plumbing(ctx, m, me) -> None:
     for q in ps:
         known = [k for t, k in q.tests if u(t) == f"{root} in self.link_names"]
         st = q.find_effect(f"self.link_names[{root}] = E_v")
+        if not known and q.kind == "return" and not q.tests and unold(q.value) == f"self.link_names.setdefault({root}, str(len(self.link_names)))":
+            # dict.setdefault: the recorded name when there is one, else the fresh name is recorded and answered
+            seen |= {"known", "fresh"}
+            continue
         if not known or q.kind != "return":
             ok = False
         elif known[0]:
